@@ -203,7 +203,22 @@ def derivations(G):
     return {
         "copy": lambda x, kind: x.copy(),
         "transformed": lambda x, kind: (t2() if kind in ("P2", "L2", "CON", "DCON", "T2", "SEG2", "POLY2", "TRI2") else t3()) * x,
+        "copy-with-changed-entries": _changed_copy,
     }
+
+
+def _changed_copy(x, kind):
+    """A copy that received other coordinates through public item assignment (only for kinds without cached geometry:
+    a polytope's cached line / plane is documented state of the constructor, not of item assignment)."""
+    if kind in ("SEG2", "SEG3", "POLY2", "POLY3", "TRI2", "CUB"):
+        raise NotImplementedError("not defined for polytopes")
+    y = x.copy()
+    y.array = np.array(x.array, dtype=float)
+    idx = (0,) * y.array.ndim
+    y[idx] = y.array[idx] + 3.0
+    if kind in ("CON", "DCON", "Q3") and y.array.ndim == 2:
+        pass  # (0, 0) is a diagonal entry: the matrix stays symmetric
+    return y
 
 
 def enum_derived(tier, seed):
@@ -353,3 +368,62 @@ def case_readonly(ctx, cfg):
                     ctx.fail(f"read-only-changes-outcome:{name}:{type(e).__name__}", name, {"action": act}, "same outcome as with writeable operands", e)
         finally:
             disarm(arrs)
+
+
+# ---------------------------------------------------------------------------------------------------
+# numeric kernels of geometer.utils on caller-owned arrays
+
+
+def enum_kernels(tier, seed):
+    for n in (2, 3, 4, 5):
+        for batch in ((), (3,), (70,)):
+            for dt in ("int64", "float64", "complex128"):
+                yield (n, batch, dt)
+
+
+@family("C12", "kernels_do_not_modify_arguments", enum_kernels)
+def case_kernels(ctx, cfg):
+    from geometer.utils import adjugate, det, hat_matrix, inv, is_multiple, matmul, matvec, null_space, orth, outer, roots
+
+    n, batch, dt = cfg
+    batch = tuple(batch)
+    rng = np.arange(int(np.prod(batch + (n, n)))).reshape(batch + (n, n))
+    A = ((rng * 7 + 3) % 11 - 5).astype(dt) + np.eye(n, dtype=dt) * 13
+    if dt == "complex128":
+        A = A + 1j * np.swapaxes(A, -1, -2).real * 0.5
+    v = A[..., 0].copy()
+    calls = [
+        ("det", lambda: det(A)),
+        ("adjugate", lambda: adjugate(A)),
+        ("inv", lambda: inv(A)),
+        ("null_space", lambda: null_space(A[..., :1, :], n - 1)),
+        ("orth", lambda: orth(A, n)),
+        ("matmul", lambda: matmul(A, A, transpose_a=True)),
+        ("matvec", lambda: matvec(A, v)),
+        ("outer", lambda: outer(v, v)),
+        ("is_multiple", lambda: is_multiple(v, 2 * v, axis=-1)),
+    ]
+    if n == 3:
+        calls.append(("hat_matrix", lambda: hat_matrix(v)))
+    if not batch and n == 4:
+        p = np.array([1, -6, 11, -6], dtype=dt)
+        calls.append(("roots", lambda: roots(p)))
+    A0, v0 = A.copy(), v.copy()
+    results = {}
+    for rep in range(2):
+        for name, fn in calls:
+            r, e = ctx.call(fn)
+            ctx.trace()
+            ctx.state((cfg, name, rep))
+            if not (np.array_equal(A, A0) and np.array_equal(v, v0)):
+                ctx.fail(f"kernel-modifies-argument:{name}:n{n}:{'batch>=64' if batch and batch[0] >= 64 else 'batch<64'}", name, {"n": n, "batch": batch, "dtype": dt}, "argument arrays unchanged", "modified")
+                A[...] = A0
+                v[...] = v0
+                continue
+            if e is None:
+                key = name
+                arr = np.asarray(r)
+                if rep == 0:
+                    results[key] = arr.copy()
+                elif key in results and not (arr.shape == results[key].shape and np.allclose(arr, results[key], equal_nan=True)):
+                    ctx.fail(f"kernel-second-call-differs:{name}", name, {"n": n, "batch": batch, "dtype": dt}, "same result on the same arguments", "differs")
